@@ -225,6 +225,37 @@ def c21():
     ])
 
 
+META["C26"] = dict(
+    text="The same generated data tree (strings, integers, booleans, nulls; no YAML-only features) is supplied as JSON (-p json on stdin, and as a .json file through auto-detection), as block YAML and as flow YAML; for presentation-blind programs (navigation, length, keys, map, select, integer arithmetic, to_entries, type, string operations, paths, tostream) `yq -o json -I0 P` must print the same values and the same success/failure for all four.",
+    note="A differential between input syntaxes of the real CLI; the YAML renderings come from G-YAML and are only used when serde_yaml (libyaml) reads them back as the ground-truth tree.",
+    technique=SAN + "input-syntax differential on the real CLI")
+
+META["C15"] = dict(
+    text="For generated loader-accepted YAML streams (anchors/aliases, comments, block scalars, quoted and ambiguous-looking strings, multi-document) x write-fragment programs (identity, navigation, =, |=, +=, del, * merge with right-hand sides drawn from a pool of strings that need quoting) x indent 0..7: the YAML printed by `yq -I k P` is fed back to `yq -o json -I0 .` and must load to the same values that `yq -o json -I0 P` printed for the same run.",
+    note="`-I 8` is rejected by the argument parser (observed on every run, counted). Trusts succinctly's own loader for the read-back, whose correctness is C14's subject; alias soundness follows from a successful reload with equal values.",
+    technique=SAN + "print/reload round-trip monitor on the real CLI")
+
+META["C24"] = dict(
+    text="Core-fragment programs x integer/string JSON inputs are run through `succinctly jq`, through /usr/bin/jq 1.6 and through jqref (an independent interpreter written from the manual). A violation is reported only where the two witnesses agree with each other and succinctly differs in output values, result count, failure/non-failure, or (for message families with version-stable wording) error text.",
+    note="jq 1.7.1 itself is not installed: the literal reference cannot be executed. Trusted base: jq 1.6, jqref, and the claim that 1.6 and 1.7.1 coincide on the generated fragment (no 1.7/1.7.1 release-note item touches it; constructs known to have changed are rejected by jqref as out-of-fragment).",
+    technique=SAN + "differential against two independent witnesses (jq 1.6 binary + reference interpreter)")
+
+
+@plan("C26")
+def c26():
+    return Check("C26", [Leg("cli", "cli_c26", fn=_lazy("cli_c26"))])
+
+
+@plan("C15")
+def c15():
+    return Check("C15", [Leg("cli", "cli_c15", fn=_lazy("cli_c15"))])
+
+
+@plan("C24")
+def c24():
+    return Check("C24", [Leg("cli", "cli_c24", fn=_lazy("cli_c24"))])
+
+
 def setup():
     """MANIFEST.setup_cmd: pre-build every configuration used by the quick tier, then the rest."""
     import subprocess
